@@ -334,7 +334,7 @@ Definition v_init (ws : list wave) (sd : N) : mem := fun a =>
   | Some b => b | None => pat (60 + sd) a end.
 
 Definition timing_init (ws : list wave) : tstate :=
-  mkT (s_init ws) 12800 (v_init ws) 65536 2 1024
+  mkT (s_init ws) 12800 (v_init ws) 65536 4 1024
       (fun w => mkSp (1229782938533634594 + w) (3689348815028241476 + w) (w mod 2) (1431655765 + w))
       (fun w => nth (N.to_nat w) ws (mkWave 0 0 0 0 0)).
 
